@@ -339,6 +339,146 @@ def gen_proc_config(rng, max_m):
 
 
 # ------------------------------------------------------------------------------------------------
+# members superposing Fock states with DIFFERENT photon numbers (`_preprocess_svd`'s photon-count split in front of
+# the generic path; model PM.C04.probsSvdGenS, theorem condition_spec_superposed_split)
+# ------------------------------------------------------------------------------------------------
+def term_n(t):
+    return sum(len(x) for x in t["state"])
+
+
+def member_ns(mb):
+    """photon numbers held by a member, in first-occurrence order"""
+    if "state" in mb:
+        return [sum(len(x) for x in mb["state"])]
+    out = []
+    for t in mb["terms"]:
+        if term_n(t) not in out:
+            out.append(term_n(t))
+    return out
+
+
+def gen_multi_config(rng, max_m):
+    """Simulator.probs_svd / Processor.with_input(StateVector | SVDistribution).probs() on a mixture in which at least
+    one member superposes 2-3 different photon numbers (the vacuum and numbers below / at / above what the heralds and
+    the filter require included), with heralds, post-selection, filters below / between / above the sectors,
+    keep_heralds both ways, no / PNR / non-PNR detectors"""
+    m = rng.randint(2, max_m)
+    entry = "proc" if rng.random() < 0.4 else "sim"
+    # (Processor.add_herald accepts the values 0 and 1 only)
+    heralds = gen_heralds(rng, m, allow2=entry == "sim" and rng.random() < 0.15)
+    if not heralds and rng.random() < 0.7:
+        heralds = [[rng.randrange(m), rng.randint(0, 1)]]
+    if entry == "proc" and len(heralds) == m:
+        heralds = heralds[:-1]
+    H = sum(v for _, v in heralds)
+    ntags = rng.choice([0, 0, 2])
+    cap = min(m * max(1, ntags), 4 if m <= 3 else 3)
+
+    def gen_member(w):
+        # 2-3 photon numbers around the herald requirement
+        pool = sorted({x for x in (0, H - 1, H, H + 1, H + 2, 1, 2) if 0 <= x <= cap})
+        k = min(len(pool), 2 if rng.random() < 0.65 else 3)
+        ns = rng.sample(pool, k)
+        if rng.random() < 0.3 and 0 not in ns:
+            ns[rng.randrange(len(ns))] = 0                     # the vacuum term
+        counts = list(ns)
+        while len(counts) < rng.randint(len(ns), 4):
+            counts.append(rng.choice(ns))                      # several terms of one photon number interfere
+        rng.shuffle(counts)
+        terms, seen = [], set()
+        cells = [(i, t) for i in range(m) for t in range(max(1, ntags))]
+        for n in counts:
+            st = [[] for _ in range(m)]
+            for (i, t) in rng.sample(cells, n):                # at most one photon per (mode, tag): factorials 1
+                st[i].append(t if ntags else -1)
+            st = [sorted(x) for x in st]
+            key = json.dumps(st)
+            if key in seen:
+                continue
+            seen.add(key)
+            c = [rng.randint(-3, 3), rng.randint(-3, 3)]
+            if c == [0, 0]:
+                c = [1, 0]
+            terms.append({"coef": c, "state": st})
+        return {"w": w, "terms": terms}
+
+    members = []
+    k = rng.choice([1, 1, 2, 3])
+    ws = [rng.random() + 0.05 for _ in range(k)]
+    for i, w in enumerate(ws):
+        if i == 0 or rng.random() < 0.5:
+            members.append(gen_member(w))
+        else:
+            n = min(rng.choice([H, H + 1, max(0, H - 1)]), cap)
+            members.append({"w": w, "state": gen_tagged_state(rng, m, n, ntags)})
+    uniq, seen = [], set()
+    for mb in members:
+        key = json.dumps(mb.get("state", mb.get("terms")))
+        if key not in seen:
+            seen.add(key)
+            uniq.append(mb)
+    tot = sum(mb["w"] for mb in uniq)
+    for mb in uniq:
+        mb["w"] = mb["w"] / tot
+    ns0 = sorted(member_ns(uniq[0]))
+    # total threshold (user filter + herald photons): not above the smallest sector / between the sectors / the
+    # largest / above everything
+    r = rng.random()
+    if r < 0.45 or len(ns0) < 2:
+        target = rng.randint(0, ns0[0])
+    elif r < 0.85:
+        target = rng.randint(ns0[0] + 1, ns0[-1])
+    else:
+        target = ns0[-1] + 1
+    ps_s, ps_j = (None, True) if rng.random() < 0.4 else gen_ps(rng, m, rng.randint(0, 2))
+    r = rng.random()
+    if r < 0.5:
+        dets = None
+    elif r < 0.7:
+        dets = ["pnr" if rng.random() < 0.6 else None for _ in range(m)]
+    else:
+        dets = gen_dets(rng, m, heralds, cap)
+    cfg = {"kind": "sim", "entry": entry, "multi": True, "backend": rng.choice(["SLOS", "SLOS", "Naive"]), "m": m,
+           "circ": gen_circuit(rng, m), "heralds": declare(rng, heralds), "ps": ps_s, "psj": ps_j,
+           "filter": max(0, target - H), "keep": (rng.random() < 0.5 if entry == "sim" else False),
+           "members": uniq, "dets": dets}
+    return cfg
+
+
+def multi_branches(chk, cfg, retained):
+    """counters of the shapes the photon-count split needs"""
+    pre = "sup-multi-photon-number"
+    multi = [mb for mb in cfg["members"] if len(member_ns(mb)) >= 2]
+    if not multi:
+        return
+    H = sum(v for _, v in cfg["heralds"])
+    tot = cfg["filter"] + H
+    mask = bool(cfg["heralds"]) and dets_all_pnr(cfg.get("dets"))
+    chk.branch(pre)
+    chk.branch(pre + ("-processor" if cfg.get("entry") == "proc" else "-simulator"))
+    if any(len(member_ns(mb)) >= 3 for mb in multi):
+        chk.branch(pre + "-three-sectors")
+    if len(cfg["members"]) > 1:
+        chk.branch(pre + "-inside-mixture")
+    if cfg["ps"]:
+        chk.branch(pre + "-post-selection")
+    if cfg["keep"]:
+        chk.branch(pre + "-keep-heralds")
+    if not dets_all_pnr(cfg.get("dets")):
+        chk.branch(pre + "-non-pnr-detectors")
+    elif cfg.get("dets"):
+        chk.branch(pre + "-pnr-detectors")
+    if mask and retained > 1e-13:
+        chk.branch(pre + "-heralds")
+        if any(tot <= min(member_ns(mb)) for mb in multi):
+            chk.branch(pre + "-filter-below-smallest")
+        if any(0 in member_ns(mb) for mb in multi):
+            chk.branch(pre + "-vacuum-term")
+        if any(min(member_ns(mb)) < tot <= max(member_ns(mb)) for mb in multi):
+            chk.branch(pre + "-term-below-filter")
+
+
+# ------------------------------------------------------------------------------------------------
 # the real code
 # ------------------------------------------------------------------------------------------------
 def bs_of(state):
@@ -423,11 +563,35 @@ def run_real(cfg):
     out = {}
     try:
         if cfg["kind"] == "sim":
+            members = cfg["members"]
+            if cfg.get("entry") == "proc":
+                # Processor.with_input(StateVector) / with_input(SVDistribution): states of the full circuit size
+                p = pcvl.Processor(cfg["backend"], cfg["m"])
+                p.add(0, circ)
+                for k, d in enumerate(cfg.get("dets") or []):
+                    if d is not None:
+                        p.add(k, build_det(d))
+                for k, v in cfg["heralds"]:                     # declaration order
+                    p.add_herald(k, v)
+                if ps is not None:
+                    p.set_postselection(ps)
+                p.min_detected_photons_filter(cfg["filter"])
+                svd = svd_of(members)
+                if len(svd) == 1:
+                    p.with_input(next(iter(svd.keys())))
+                else:
+                    p.with_input(svd)
+                res = p.probs(precision=0)
+                U = np.array(p.linear_circuit().compute_unitary(), dtype=complex)
+                lean_members = [({"w": mb["w"], "groups": groups_of(mb["state"])} if "state" in mb
+                                 else {"w": mb["w"], "terms": mb["terms"]}) for mb in members]
+                out.update({"obs": canon_result(res), "U": U, "members": lean_members,
+                            "min_p": float(pcvl.utils.global_params["min_p"])})
+                return out
             sim = Simulator(pcvl.BackendFactory.get_backend(cfg["backend"]))
             sim.set_circuit(circ)
             if cfg.get("prec", 0) != "default":
                 sim.set_precision(cfg.get("prec", 0))
-            members = cfg["members"]
             fock = [mb for mb in members if "state" in mb]
             if cfg.get("prev"):
                 # an earlier request on the same object (its answer is not judged here)
@@ -537,6 +701,32 @@ def detect_state(dets, t):
     return outs
 
 
+def sectors_by_hand(members):
+    """components with different photon numbers never interfere: a member holding several photon numbers IS the
+    mixture of its photon-number sectors, each weighted by its share of the squared norm (coefficients are the
+    rescaled ones: at most one photon per mode and tag).  Done here so that the direct oracle does not rely on the
+    split of the code under test."""
+    out = []
+    for mb in members:
+        if "terms" not in mb or len(member_ns(mb)) < 2:
+            out.append(mb)
+            continue
+        tot = sum(t["coef"][0] ** 2 + t["coef"][1] ** 2 for t in mb["terms"])
+        for n in member_ns(mb):
+            part = [t for t in mb["terms"] if term_n(t) == n]
+            w = mb["w"] * sum(t["coef"][0] ** 2 + t["coef"][1] ** 2 for t in part) / tot
+            out.append({"w": w, "terms": part})
+    # equal keys of the mixture add up
+    acc = {}
+    for mb in out:
+        key = json.dumps(mb.get("state", mb.get("terms")))
+        if key in acc:
+            acc[key] = dict(acc[key], w=acc[key]["w"] + mb["w"])
+        else:
+            acc[key] = mb
+    return list(acc.values())
+
+
 def direct_oracle(cfg, eff_filter):
     """The property evaluated on the real code without the Lean driver: unconditioned distribution of a
     selection-free, detector-free Simulator on the same circuit and input, pushed through the closed-form detector
@@ -548,7 +738,7 @@ def direct_oracle(cfg, eff_filter):
     sim.set_circuit(circ)
     sim.set_precision(0)
     if cfg["kind"] == "sim":
-        svd = svd_of(cfg["members"])
+        svd = svd_of(sectors_by_hand(cfg["members"]))
     else:
         noise = pcvl.NoiseModel(**cfg["noise"]) if cfg["noise"] else pcvl.NoiseModel()
         full_in = lean_free_interleave(cfg["m"], cfg["heralds"], cfg["user"])
@@ -721,9 +911,12 @@ def lean_request(cfg, real, eff_filter):
                 members.append({"w": core.rat(mb["w"]), "terms": [{"coef": ["1", "0"], "groups": mb["groups"]}]})
         # the rescaled coefficient of a Fock member with bunched photons is irrational; its *distribution*
         # is what matters and `probsSV` normalises by svNorm2, so coef 1 is exact for single-term members
+        nmax = max([term_n(t) for mb in real["members"] for t in mb.get("terms", [])]
+                   + [sum(map(sum, mb["groups"])) for mb in real["members"] if "groups" in mb] + [0])
         return {"op": "c04gen", "m": cfg["m"], "U": U, "members": members,
                 "cfg": {"heralds": cfg["heralds"], "ps": cfg["psj"], "filter": eff_filter, "keepHeralds": cfg["keep"],
-                        "pnr": True}}
+                        "pnr": True},
+                "dets": lean_dets(cfg.get("dets"), nmax)}
     return {"op": "c04", "m": cfg["m"], "U": U,
             "members": [{"w": core.rat(mb["w"]), "groups": mb["groups"]} for mb in real["members"]],
             "cfg": {"heralds": cfg["heralds"], "ps": cfg["psj"], "filter": eff_filter, "keepHeralds": cfg["keep"],
@@ -1776,14 +1969,13 @@ def judge(chk, cfg):
         return judge_trim_sup(chk, cfg)
     if cfg.get("trim"):
         return judge_trim(chk, cfg)
-    entry = "Processor.probs" if cfg["kind"] == "proc" else "Simulator.probs_svd"
+    entry = "Processor.probs" if cfg["kind"] == "proc" or cfg.get("entry") == "proc" else "Simulator.probs_svd"
     try:
         real = chk.real.call("run_real", cfg)
     except Crash as e:
         return crash_verdict(cfg, e, entry)
     if "err" in real:
-        return ("violation", "raises-" + real["err"],
-                f"{'Processor.probs' if cfg['kind'] == 'proc' else 'Simulator.probs_svd'} raised {real['err']}: {real['msg']}")
+        return ("violation", "raises-" + real["err"], f"{entry} raised {real['err']}: {real['msg']}")
     eff = effective_filter(cfg)
     if cfg["kind"] == "proc":
         rep = chk.lean.ask({"op": "interleave", "m": cfg["m"], "heralds": cfg["heralds"], "user": cfg["user"]})
@@ -1815,6 +2007,15 @@ def judge(chk, cfg):
         model = {"results": dist_of_json(rep["model"]["results"]), "phys": Fraction(rep["model"]["phys"]),
                  "logical": Fraction(rep["model"]["logical"])}
         retained = float(Fraction(rep["spec"]["retained"]))
+        if req["op"] == "c04gen":
+            multi_branches(chk, cfg, retained)
+            if rep.get("sectors") is not None:
+                # instance of the theorem `probsSvdGenS_eq_split`: the two passes of `_preprocess_svd` followed by the
+                # generic path = the generic path on the mixture of the photon-number sectors
+                chk.branch("sup-multi-photon-number-sectors-instance")
+                if rep["sectors"] != rep["model"]:
+                    return ("broken", "split-model-vs-sectors",
+                            "the model of _preprocess_svd's split and the generic model on the mixture of the sectors differ")
         if not dets_all_pnr(cfg.get("dets")) and cfg["heralds"] and 0 < spec["phys"] < 1 and retained > 1e-13 \
                 and all(det_is_pnr(cfg["dets"][k]) for k, _ in cfg["heralds"]):
             chk.branch("detector-filter-bites-under-pnr-heralds")
@@ -1934,9 +2135,15 @@ def judge(chk, cfg):
                 raise
             except Exception:  # noqa: BLE001
                 sig = "conditioning-" + dbad[0][0]
+        multi_note = ""
+        if cfg["kind"] == "sim" and any(len(member_ns(mb)) >= 2 for mb in cfg["members"]):
+            multi_note = (f"; {entry}, input members hold the photon numbers "
+                          f"{[member_ns(mb) for mb in cfg['members']]} (components of different photon number never "
+                          f"interfere: the oracle conditions the mixture of the sectors)")
         return ("violation", sig,
                 f"{dbad[0][0]} differs from conditioning the unconditioned distribution "
-                f"(heralds {cfg['heralds']}, filter {cfg['filter']}, post-selection {cfg['ps']}): {dbad[0][1]}")
+                f"(heralds {cfg['heralds']}, filter {cfg['filter']}, post-selection {cfg['ps']}): {dbad[0][1]}"
+                f"{multi_note}")
     return ("broken", "spec-vs-code:" + field,
             f"exact specification and implementation differ ({what}) although the directly conditioned "
             f"unconditioned distribution of the implementation agrees")
@@ -2029,6 +2236,18 @@ def shrink(chk, cfg, sig):
                 if attempt(c):
                     changed = True
                     break
+        if cur["kind"] == "sim":
+            done = False
+            for i, mb in enumerate(cur["members"]):
+                if "terms" in mb and len(mb["terms"]) > 2:
+                    for j in range(len(mb["terms"])):
+                        c = copy.deepcopy(cur)
+                        del c["members"][i]["terms"][j]
+                        if attempt(c):
+                            changed = done = True
+                            break
+                if done:
+                    break
         if len(cur["circ"]["comps"]) > 1:
             for i in range(len(cur["circ"]["comps"])):
                 c = copy.deepcopy(cur)
@@ -2040,6 +2259,10 @@ def shrink(chk, cfg, sig):
             c = copy.deepcopy(cur)
             c["filter"] = 0
             changed |= attempt(c)
+        if cur.get("entry") == "proc":
+            c = copy.deepcopy(cur)
+            c["entry"] = "sim"
+            changed |= attempt(c)
     return cur
 
 
@@ -2047,7 +2270,9 @@ def signature_of(cfg):
     hs = tuple(tuple(h) for h in cfg["heralds"])
     if cfg["kind"] == "sim":
         shape = tuple(sorted((len(groups_of(mb["state"])), sum(len(x) for x in mb["state"])) if "state" in mb
-                             else (-len(mb["terms"]), 0) for mb in cfg["members"]))
+                             else (-len(mb["terms"]), 0) + tuple(member_ns(mb)) for mb in cfg["members"]))
+        if cfg.get("entry") == "proc":
+            shape = ("proc",) + shape
     else:
         shape = (tuple(cfg["user"]), json.dumps(cfg["noise"], sort_keys=True))
     return (cfg["kind"], cfg["backend"], cfg["m"], hs, cfg["filter"], cfg["ps"], cfg["keep"], shape,
@@ -2137,7 +2362,7 @@ def handle(chk, cfg, do_shrink=True):
     if cfg["ps"]:
         chk.branch("post-selection")
     if cfg["kind"] == "sim":
-        ns = [sum(len(x) for x in (mb["state"] if "state" in mb else mb["terms"][0]["state"])) for mb in cfg["members"]]
+        ns = [n for mb in cfg["members"] for n in member_ns(mb)]
         gs = [len(groups_of(mb["state"])) for mb in cfg["members"] if "state" in mb]
         if gs and max(gs) >= 2 and hs:
             chk.branch("several-groups-under-mask")
@@ -2256,6 +2481,14 @@ REQUIRED = ["mask-path", "no-heralds", "herald-in-the-middle", "adjacent-heralds
             "trim-sup-changes-the-answer", "trim-sup-compared", "trim-sup-compared-component-dropped",
             "trim-sup-compared-component-dropped-at-default-precision",
             "trim-sup-compared-component-dropped-under-mask-retained", "trim-sup-compared-changes-the-answer",
+            # members superposing different photon numbers (_preprocess_svd's split in front of the generic path)
+            "sup-multi-photon-number", "sup-multi-photon-number-heralds",
+            "sup-multi-photon-number-filter-below-smallest", "sup-multi-photon-number-vacuum-term",
+            "sup-multi-photon-number-term-below-filter", "sup-multi-photon-number-three-sectors",
+            "sup-multi-photon-number-inside-mixture", "sup-multi-photon-number-processor",
+            "sup-multi-photon-number-simulator", "sup-multi-photon-number-post-selection",
+            "sup-multi-photon-number-keep-heralds", "sup-multi-photon-number-pnr-detectors",
+            "sup-multi-photon-number-non-pnr-detectors", "sup-multi-photon-number-sectors-instance",
             # check_heralds_detectors
             "guard-early-exit", "guard-passes",
             # sessions on one object
@@ -2337,6 +2570,9 @@ def run(chk: core.Check):
             handle(chk, gen_guard_config(rng, 4))
         if on("malformed"):
             malformed(chk, rng, chk.pick(30, 300))
+        # (last, so that the random streams of the batches above are what they were before this batch existed)
+        for _ in range(chk.pick(90, 800) if on("multi") else 0):
+            handle(chk, gen_multi_config(rng, 4))
         chk.extra["real_code_worker_crashes"] = chk.real.crashes
     finally:
         chk.real.close()
